@@ -128,7 +128,8 @@ reported with another `kind` or a `callCount` that differs from the number of st
 is `none`). -/
 
 structure CallStmt where
-  kind : String          -- "expr" = a call as a statement; "return" = `return <one call>`; else not understood
+  kind : String          -- "expr" = a call as a statement; "expr-or-cancel" = the same call made in a goroutine and
+                         -- awaited against ctx.Done(); "return" = `return <one call>`; else not understood
   callee : List String   -- selector path of the call, e.g. ["rw", "limiter", "Take"]
   args : List String     -- argument expressions, source text
   deriving Repr, DecidableEq
@@ -176,10 +177,18 @@ def limiterField (w : WrapperFacts) : Option String :=
   | _ => none
 
 def stmtEvent (w : WrapperFacts) (lf : String) (m : MethodFacts) (s : CallStmt) : Option Ev :=
-  if s.kind == "expr" && s.callee == [m.recv, lf, "Take"] && s.args == [] then some .take
+  if (s.kind == "expr" || s.kind == "expr-or-cancel") && s.callee == [m.recv, lf, "Take"] && s.args == [] then some .take
   else if s.kind == "return" && w.embedded.any (fun e => s.callee == [m.recv, e, m.name]) && s.args == m.params then
     some .delegate
   else none
+
+/-- the method's `Take` is of kind "expr-or-cancel": made in a goroutine and awaited against `ctx.Done()`; when the
+    scan is cancelled the method returns `nil, ctx.Err()` at once and does not delegate (the events above describe
+    a call of a scan that is not cancelled) -/
+def takeInterruptible (w : WrapperFacts) (name : String) : Bool :=
+  match limiterField w, w.methods.filter (·.name == name) with
+  | some lf, [m] => m.body.any (fun s => s.kind == "expr-or-cancel" && s.callee == [m.recv, lf, "Take"])
+  | _, _ => false
 
 def methodEvents (w : WrapperFacts) (lf : String) (m : MethodFacts) : Option (List Ev) :=
   if m.callCount == m.body.length then m.body.mapM (stmtEvent w lf m) else none
